@@ -1,0 +1,45 @@
+// Copyright 2015 Comcast Cable Communications Management, LLC
+//
+// Licensed under the Apache License, Version 2.0 (the "License");
+// you may not use this file except in compliance with the License.
+// You may obtain a copy of the License at
+//
+//     http://www.apache.org/licenses/LICENSE-2.0
+//
+// Unless required by applicable law or agreed to in writing, software
+// distributed under the License is distributed on an "AS IS" BASIS,
+// WITHOUT WARRANTIES OR CONDITIONS OF ANY KIND, either express or implied.
+// See the License for the specific language governing permissions and
+// limitations under the License.
+//
+// End Copyright
+
+//go:build verif
+// +build verif
+
+package core
+
+import "sync/atomic"
+
+// Verification build only: an external test harness can hang a function
+// on the scheduling-relevant points of the code (just before a lock is
+// taken, just after it is released) in order to perturb thread
+// schedules, for example by yielding or sleeping there.
+
+var verifYieldHook atomic.Value // of func(string)
+
+// SetVerifYield installs (or, with nil, removes) the function called by
+// VerifYield.
+func SetVerifYield(f func(point string)) {
+	if f == nil {
+		f = func(string) {}
+	}
+	verifYieldHook.Store(f)
+}
+
+// VerifYield marks a scheduling-relevant point.
+func VerifYield(point string) {
+	if f, ok := verifYieldHook.Load().(func(string)); ok {
+		f(point)
+	}
+}
